@@ -130,6 +130,18 @@ func (e *Engine) Catalog() *Catalog {
 // started. Unlocked transactions serve as a point in time snapshots and can be
 // just be discarded when not being used further.
 func (e *Engine) Begin(ctx context.Context, lock bool) (*Transaction, error) {
+	// check for a transaction of the session in the context before acquiring
+	// the engine lock: the session methods call into the engine while holding
+	// the session mutex, so acquiring it below would invert the lock order
+	// and deadlock with a concurrent commit, abort or end of that session
+	nested := false
+	if lock {
+		sess, ok := ensureContext(ctx).Value(sessionKey{}).(*Session)
+		if ok && sess.Transaction() != nil {
+			nested = true
+		}
+	}
+
 	// acquire lock
 	e.mutex.Lock()
 	defer e.mutex.Unlock()
@@ -150,19 +162,15 @@ func (e *Engine) Begin(ctx context.Context, lock bool) (*Transaction, error) {
 	ctx = ensureContext(ctx)
 
 	// check for transaction
-	sess, ok := ctx.Value(sessionKey{}).(*Session)
-	if ok {
-		txn := sess.Transaction()
-		if txn != nil {
-			return nil, fmt.Errorf("detected nested transaction")
-		}
+	if nested {
+		return nil, fmt.Errorf("detected nested transaction")
 	}
 
 	// acquire token (without lock); use a tomb-aware context so that a shutdown
 	// unblocks the acquisition
 	e.mutex.Unlock()
 	vhook("begin.wait", e, nil)
-	ok = e.token.Acquire(e.tomb.Context(ctx).Done(), time.Minute)
+	ok := e.token.Acquire(e.tomb.Context(ctx).Done(), time.Minute)
 	vhook("begin.woke", e, nil)
 	e.mutex.Lock()
 	if !ok {
